@@ -1136,6 +1136,31 @@ impl<'a> Parser<'a> {
         Ok(())
     }
 
+    /// Run `f` one nesting level deeper, refusing past [`MAX_EXPR_DEPTH`].
+    ///
+    /// For the constructs whose *tail* recurses without passing through
+    /// [`Parser::parse_primary`]'s own counter on the way down: the body of an
+    /// `as` binding (`1 as $x | 1 as $y | ...`) and an `elif` chain each nest
+    /// one `Expr` (and several parser frames) per link, so a long enough chain
+    /// overflowed the stack in `parse()` itself -- around 10,000 bindings in a
+    /// release build on an 8 MiB stack.
+    fn with_nesting<T>(
+        &mut self,
+        f: impl FnOnce(&mut Self) -> Result<T, ParseError>,
+    ) -> Result<T, ParseError> {
+        self.expr_depth += 1;
+        let result = if self.expr_depth > MAX_EXPR_DEPTH {
+            Err(ParseError::new(
+                format!("expression nesting exceeds depth limit of {MAX_EXPR_DEPTH}"),
+                self.pos,
+            ))
+        } else {
+            f(self)
+        };
+        self.expr_depth -= 1;
+        result
+    }
+
     /// The real `parse_primary` body, entered only through the depth-checked
     /// wrapper above -- every recursive descent goes back through
     /// `self.parse_primary()`, not this function, so the counter sees every
@@ -1445,7 +1470,7 @@ impl<'a> Parser<'a> {
             let then_branch = self.parse_expr()?;
             self.skip_ws();
 
-            let else_branch = self.parse_else_branch()?;
+            let else_branch = self.with_nesting(|p| p.parse_else_branch())?;
 
             Ok(Expr::If {
                 cond: Box::new(cond),
@@ -4267,7 +4292,7 @@ impl<'a> Parser<'a> {
         let mut patterns = self.parse_pattern_alternatives()?;
         self.expect('|')?;
         self.skip_ws();
-        let body = self.parse_expr()?;
+        let body = self.with_nesting(|p| p.parse_expr())?;
 
         // No `?//` alternatives: keep the simpler, pre-existing `Expr::As`
         // shape for a bare `$var` pattern (every other `Expr::As` call site
